@@ -225,6 +225,49 @@ def run(ctx):
             arr = [[int(a), int(b)] for a, b in zip(ref.ravel().tolist(), pred.ravel().tolist())]
             mod_in.append([[[p, r] for p, r in M.items()], arr])
             mod_meta.append((case, M, out.prediction_arr.ravel().tolist()))
+    # a pair object whose arrays are edited IN PLACE after it was built (a preallocated buffer refilled, an instance split) and then
+    # matched: the relabelling must describe the arrays as they are at matching time, not as they were when the pair was constructed
+    from panoptica import NaiveThresholdMatching
+    from panoptica.instance_matcher import MaximizeMergeMatching
+    from panoptica.utils.processing_pair import UnmatchedInstancePair
+    for _ in range(ctx.scale(30, 300)):
+        dt = rng.choice(["uint8", "uint16", "uint32", "uint64"])
+        w = rng.randint(10, 16)
+        ref = np.zeros((2, w), dt); pred = np.zeros((2, w), dt)
+        ref[:, 0:3] = 1; ref[:, 5:8] = 2
+        pred[:, 0:3] = 1; pred[0, 9:w] = 2
+        kind = rng.choice(["naive", "m2o", "merge"])
+        matcher = {"naive": lambda: NaiveThresholdMatching(impl.metric("IOU"), 0.5, False), "m2o": lambda: NaiveThresholdMatching(impl.metric("IOU"), 0.5, True),
+                   "merge": lambda: MaximizeMergeMatching(impl.metric("IOU"), 0.5)}[kind]()
+        try:
+            with contextlib.redirect_stdout(io.StringIO()), np.errstate(all="ignore"):
+                pair = UnmatchedInstancePair(pred, ref)
+                before_p, before_r = pred.copy(), ref.copy()
+                # the edit: a new prediction label appears (an unmatched instance is split / a further blob is written)
+                if rng.random() < 0.5:
+                    pred[0, 9 + (w - 9) // 2:w] = 3
+                else:
+                    pred[1, 9:11] = rng.choice([3, 4])
+                if rng.random() < 0.3:
+                    ref[1, w - 2:w] = 3
+                snap_p, snap_r = pred.copy(), ref.copy()
+                out = matcher.match_instances(pair)
+        except Exception as e:  # noqa
+            ctx.violation("matching a pair whose arrays were edited in place raised: " + repr(e)[:150], {"stale_pair": True, "matcher": kind, "dtype": dt})
+            continue
+        M = {}
+        ref_labels = set(int(x) for x in np.unique(snap_r) if x)
+        for p_ in [int(x) for x in np.unique(snap_p) if x]:
+            vals = np.unique(out.prediction_arr[snap_p == p_])
+            if len(vals) == 1 and int(vals[0]) in ref_labels and (snap_r[snap_p == p_] == int(vals[0])).any():
+                M[p_] = int(vals[0])
+        ctx.count({"stale_pair": True, "matcher": kind, "dtype": dt, "pred": snap_p.tolist(), "ref": snap_r.tolist()}, True)
+        ctx.bump(f"pair edited in place before matching/{kind}")
+        bad = oracle(snap_p, snap_r, M, out)
+        if bad:
+            ctx.violation("pair edited in place, then matched: " + "; ".join(bad[:3]),
+                          {"stale_pair": True, "pred": snap_p, "ref": snap_r, "pred_when_pair_was_built": before_p, "ref_when_pair_was_built": before_r,
+                           "matcher": kind, "metric": "IOU", "threshold": 0.5, "matching": M, "relabelled": out.prediction_arr})
     outs = engine_run(401, mod_in)
     for (case, M, got), o in zip(mod_meta, outs):
         if [int(x) for x in got] != o:
@@ -240,6 +283,31 @@ def run(ctx):
 def replay(path):
     common.serial_pool()
     d = json.loads(open(path).read())
+    if d.get("stale_pair"):
+        from panoptica import NaiveThresholdMatching
+        from panoptica.instance_matcher import MaximizeMergeMatching
+        from panoptica.utils.processing_pair import UnmatchedInstancePair
+        pred, ref = common.arr_from_json(d["pred_when_pair_was_built"]), common.arr_from_json(d["ref_when_pair_was_built"])
+        after_p, after_r = common.arr_from_json(d["pred"]), common.arr_from_json(d["ref"])
+        kind = d["matcher"]
+        matcher = {"naive": lambda: NaiveThresholdMatching(impl.metric("IOU"), 0.5, False), "m2o": lambda: NaiveThresholdMatching(impl.metric("IOU"), 0.5, True),
+                   "merge": lambda: MaximizeMergeMatching(impl.metric("IOU"), 0.5)}[kind]()
+        with contextlib.redirect_stdout(io.StringIO()), np.errstate(all="ignore"):
+            pair = UnmatchedInstancePair(pred, ref)
+            pred[...] = after_p
+            ref[...] = after_r
+            out = matcher.match_instances(pair)
+        ref_labels = set(int(x) for x in np.unique(after_r) if x)
+        M = {}
+        for p_ in [int(x) for x in np.unique(after_p) if x]:
+            vals = np.unique(out.prediction_arr[after_p == p_])
+            if len(vals) == 1 and int(vals[0]) in ref_labels and (after_r[after_p == p_] == int(vals[0])).any():
+                M[p_] = int(vals[0])
+        print("pair built on:\n", common.arr_from_json(d["pred_when_pair_was_built"]), "\nthen edited in place to:\n", after_p, "\nreference:\n", after_r)
+        print("relabelled prediction:\n", out.prediction_arr)
+        bad = oracle(after_p, after_r, M, out)
+        print("violations:", bad)
+        return 1 if bad else 0
     if "large" in d:
         pred, ref = big_arrays(d["large"])
         print("large volume", d["large"]["shape"], d["large"]["dtype"], "boxes (array, label, lo, hi):", d["large"]["boxes"])
